@@ -1725,6 +1725,10 @@ fn same_fail(c: Checked, a0: &str) -> bool {
 // shrinking
 // ---------------------------------------------------------------------------------------------
 
+/// canonicalising rewrites on/off (off while a closed inner query is minimised on its own: there a bare
+/// `SELECT COUNT(*) FROM t` would run into the header fast path of the DML-churned working database)
+static CANON: std::sync::atomic::AtomicBool = std::sync::atomic::AtomicBool::new(true);
+
 fn e_rewrites(e: &E) -> Vec<E> {
     let bx = |x: &E| Box::new(x.clone());
     let mut out = vec![];
@@ -1766,6 +1770,9 @@ fn e_rewrites(e: &E) -> Vec<E> {
     }
     // canonicalising rewrites (not smaller, but towards one canonical variant, so that a feature stays in the minimal
     // statement only if the failure needs it)
+    if !CANON.load(std::sync::atomic::Ordering::Relaxed) {
+        return out;
+    }
     match e {
         E::Agg(f, _) if *f != AggFn::CountStar => out.push(E::Agg(AggFn::CountStar, None)),
         E::Exists(q, n) => {
@@ -2156,7 +2163,9 @@ fn minimise(scratch: &Scratch, case: &Case, db: &mut Db, work: &mut Option<Work>
                         // minimise the inner query on its own (its own sub-assertion)
                         let ia = x.assertion.clone();
                         let mut bi = 60usize;
+                        CANON.store(false, std::sync::atomic::Ordering::Relaxed);
                         let small = shrink_query(&iq, &mut |c| same_fail(check(&mut w.db, &tables_f, c), &ia), &mut bi);
+                        CANON.store(true, std::sync::atomic::Ordering::Relaxed);
                         inner_first = Some((small, ia));
                     }
                 }
